@@ -257,7 +257,9 @@ def body_composite(case, ctx):
         if spec["k"] == "CP":
             ax = spec["axis"]
             lo, hi = X[:, ax].min(), X[:, ax].max()
-            for j in range(len(spec["parts"]) - 1):
+            # (a data range that is itself a sub-normal number - the shrinker's idea of "distinct points" - has no representable
+            # fraction to serve as a width: nothing to judge)
+            for j in range(len(spec["parts"]) - 1 if hi - lo > 1e-290 else 0):
                 lb, wb = bounds[m + 2 * j], bounds[m + 2 * j + 1]
                 if not (lb[0] <= lo + 1e-12 * abs(lo) and lb[1] >= hi - 1e-12 * abs(hi) and wb[0] > 0 and wb[1] > wb[0]):
                     raise Violation(f"composite-cp-bounds:{cls}", f"change-point {j}: location bounds {lb}, width bounds {wb} for data range {(lo, hi)}")
